@@ -33,7 +33,7 @@ func (k Key) Priv() *bec.PrivateKey {
 	return p
 }
 func (k Key) Hash160() []byte { return crypto.Hash160(k.Priv().PubKey().SerialiseCompressed()) }
-func (k Key) P2PKH() []byte  { return feegen.P2PKH(k.Hash160()) }
+func (k Key) P2PKH() []byte   { return feegen.P2PKH(k.Hash160()) }
 
 // U: one previous output. Script is its full locking script (P2PKH of Key, optionally followed by an
 // inscription envelope).
@@ -75,7 +75,7 @@ type Scenario struct {
 	// TamperPay (bid flow): the partially signed bid reaches the seller with this amount on the payment output instead
 	// of the bid amount (no bidder signature covers that output); 0 = as made
 	TamperPay uint64 `json:"tamper_pay,omitempty"`
-	Note         string        `json:"note,omitempty"`
+	Note      string `json:"note,omitempty"`
 }
 
 func (s Scenario) TwoD() bool  { return s.Flow == "list2d" || s.Flow == "bid2d" }
@@ -99,9 +99,38 @@ type Result struct {
 	Err      error
 	Panicked bool
 	PanicMsg string
+	// ArgsChanged: a UTXO object the caller handed to a flow reads differently after the call ("" = none did)
+	ArgsChanged string
 	// the two scripts the bid flows invent (read back from the partially signed tx)
 	BidOrdScript []byte
 	BidPayScript []byte
+}
+
+// watch remembers what the caller's UTXO objects say; the returned function names the first that says something else later.
+func watch(what string, us []*bt.UTXO) func() string {
+	show := func(u *bt.UTXO) string {
+		if u == nil {
+			return "nil"
+		}
+		ls := "nil"
+		if u.LockingScript != nil {
+			ls = common.Hex(*u.LockingScript)
+		}
+		return fmt.Sprintf("%x:%d %d sats script %s seq %d", u.TxID, u.Vout, u.Satoshis, ls, u.SequenceNumber)
+	}
+	us = append([]*bt.UTXO{}, us...) // the objects, whatever the flow does to the order of the caller's slice
+	before := make([]string, len(us))
+	for i, u := range us {
+		before[i] = show(u)
+	}
+	return func() string {
+		for i, u := range us {
+			if now := show(u); now != before[i] {
+				return fmt.Sprintf("%s[%d] was {%s}, after the call it is {%s}", what, i, before[i], now)
+			}
+		}
+		return ""
+	}
 }
 
 func sc(h string) *bscript.Script { return bscript.NewFromBytes(common.Unhex(h)) }
@@ -162,6 +191,8 @@ func Run(s Scenario) (res Result) {
 			vla := &ord.ValidateListingArgs{ListedOrdinalUTXO: s.listedUTXO()}
 			asoa := &ord.AcceptListingArgs{PSTx: pstx, UTXOs: s.fundingBT(), BuyerReceiveOrdinalScript: sc(s.Buyer),
 				DummyOutputScript: sc(s.Dummy), ChangeScript: sc(s.Change), FQ: s.Quote.Build()}
+			w1, w2 := watch("AcceptListingArgs.UTXOs", asoa.UTXOs), watch("ValidateListingArgs.ListedOrdinalUTXO", []*bt.UTXO{vla.ListedOrdinalUTXO})
+			defer func() { res.ArgsChanged = w1() + w2() }()
 			if s.TwoD() {
 				res.Final, res.Err = ord.AcceptOrdinalSaleListing2Dummies(ctx, vla, asoa)
 			} else {
@@ -171,8 +202,11 @@ func Run(s Scenario) (res Result) {
 		}
 		if s.TwoD() {
 			var pstx *bt.Tx
+			bidder := s.fundingBT()
+			w1 := watch("MakeBid2DArgs.BidderUTXOs", bidder)
+			defer func() { res.ArgsChanged += w1() }()
 			pstx, res.MakeErr = ord.MakeBidToBuy1SatOrdinal2Dummies(ctx, &ord.MakeBid2DArgs{BidAmount: s.Price, OrdinalTxID: s.Ord.Txid,
-				OrdinalVOut: s.Ord.Vout, BidderUTXOs: s.fundingBT(), BuyerReceiveOrdinalScript: sc(s.Buyer),
+				OrdinalVOut: s.Ord.Vout, BidderUTXOs: bidder, BuyerReceiveOrdinalScript: sc(s.Buyer),
 				DummyOutputScript: sc(s.Dummy), ChangeScript: sc(s.Change), FQ: s.Quote.Build()})
 			if res.MakeErr != nil {
 				res.Err = res.MakeErr
@@ -191,14 +225,19 @@ func Run(s Scenario) (res Result) {
 			if len(s.Funding) == 2 {
 				prev = append(prev, s.listedUTXO())
 			}
+			w2 := watch("ValidateBid2DArgs.PreviousUTXOs", prev)
+			defer func() { res.ArgsChanged += w2() }()
 			res.Final, res.Err = ord.AcceptBidToBuy1SatOrdinal2Dummies(ctx,
 				&ord.ValidateBid2DArgs{PreviousUTXOs: prev, BidAmount: s.Price, ExpectedFQ: s.expectedFQ()},
 				&ord.AcceptBid2DArgs{PSTx: pstx, SellerReceiveOrdinalScript: sc(s.SellerScript), OrdinalUnlocker: ordUnlocker})
 			return
 		}
 		var pstx *bt.Tx
+		bidder := s.fundingBT()
+		w1 := watch("MakeBidArgs.BidderUTXOs", bidder)
+		defer func() { res.ArgsChanged += w1() }()
 		pstx, res.MakeErr = ord.MakeBidToBuy1SatOrdinal(ctx, &ord.MakeBidArgs{BidAmount: s.Price, OrdinalTxID: s.Ord.Txid,
-			OrdinalVOut: s.Ord.Vout, BidderUTXOs: s.fundingBT(), BuyerReceiveOrdinalScript: sc(s.Buyer),
+			OrdinalVOut: s.Ord.Vout, BidderUTXOs: bidder, BuyerReceiveOrdinalScript: sc(s.Buyer),
 			DummyOutputScript: sc(s.Dummy), ChangeScript: sc(s.Change), FQ: s.Quote.Build()})
 		if res.MakeErr != nil {
 			res.Err = res.MakeErr
@@ -317,7 +356,9 @@ func QuotedFee(q feegen.Quote, raw []byte, outs []*bt.Output) *big.Int {
 func Check(s Scenario, res Result) (fs []Finding) {
 	tx := res.Final
 	api := API(s.Flow)
-	add := func(what, format string, a ...interface{}) { fs = append(fs, Finding{api + "/" + what, fmt.Sprintf(format, a...)}) }
+	add := func(what, format string, a ...interface{}) {
+		fs = append(fs, Finding{api + "/" + what, fmt.Sprintf(format, a...)})
+	}
 	prev := s.PrevOuts(res)
 	raw := tx.Bytes()
 	if len(prev) != len(tx.Inputs) {
